@@ -9,10 +9,11 @@ import numpy as np
 
 from ..common import seed_rng
 from ..meshgen import INITIAL_GRIDS, THETAS, Batch, random_op, op_json, random_indicators, near_miss_indicators
+from ..meshops_tie import PROP_MOD_C06 as MESHOPS_PROP_MOD2, PROP_MOD as MESHOPS_PROP_MOD, TRUSTED as MESHOPS_TRUSTED, translate_meshops
 from ..meshlib import PyMesh
 from .. import refmesh
 
-PROP_MODS = ['Stbem.Props.C06']
+PROP_MODS = ['Stbem.Props.C06', MESHOPS_PROP_MOD, MESHOPS_PROP_MOD2]
 RULE = ('correspondence: dorfler_refine_isotropic / _anisotropic of src/mesh.py on real meshes (Fraction coordinates) '
         'with indicators whose partial sums are exact in binary64 (small integers times a power of two, theta = '
         'k/16), the argsort permutation NumPy actually produced being handed to the model; leaves compared after the '
@@ -26,8 +27,15 @@ TRUSTED = [
     'A-layer mesh model + correspondence harness (as C02); the argsort permutation is an input of the model '
     '(universally quantified in the theorems), so NumPy\'s tie order is not modelled but covered',
     'exact arithmetic: float summation order (np.sum pairwise vs sequential cumsum) is outside the model',
+    MESHOPS_TRUSTED,
 ]
 ASSUMPTIONS = ['indicators are non-negative; 0 < theta < 1; list.sort is stable (CPython)']
+
+
+def translate(res):
+    """Regenerates lean/Stbem/Gen/MeshOps.lean from the refinement drivers of src/mesh.py (broken obligation when a
+    construct is outside the translated fragment)."""
+    translate_meshops(res)
 
 
 def small_meshes(tier):
@@ -42,7 +50,7 @@ def small_meshes(tier):
 
 def correspond(res, tier):
     rng = seed_rng(res.seed, 'C06')
-    batch = Batch()
+    batch = Batch(generated=True)
     thetas = [0.25, 0.5, 0.75, 0.9375]
     vals = [0.0, 1.0, 2.0, 3.0]
     for glue, X, T, pre in small_meshes(tier):
@@ -91,8 +99,11 @@ def correspond(res, tier):
                                             for o in batch.histories[-1]['ops']][:8]))
     dis = batch.run()
     res.notes['model_lines'] = len(batch.lines)
+    res.notes['generated_model_lines'] = batch.n_generated
     if dis is not None:
-        res.broken_obligation('correspondence C06: Doerfler model and src/mesh.py differ', repr(dis)[:6000])
+        res.broken_obligation('correspondence C06: Doerfler model%s and src/mesh.py differ' %
+                              (' REGENERATED from src/mesh.py (gmesh)' if dis.get('kind') == 'disagreement-generated' else ''),
+                              repr(dis)[:6000])
 
 
 # --------------------------------------------------------------------------------------------------
